@@ -188,6 +188,20 @@ def _group(desc, out, info):
     if (r[1], r[2], r[3]) != ref_bl:
         out.fail("group-api", "analyzer reports %r, International Tables %r" % (r[1:], ref_bl), key=key + ":api")
     out.cls("group-api-checked")
+    # the same through an analyser that answered these questions for another crystal first and was handed this one via set_system()
+    from ase.build import bulk
+    aux = bulk("Mg", "hcp", a=3.21, c=5.21) if spgref.crystal_system(sg) == "cubic" else bulk("Fe", "bcc", a=2.87, cubic=True)
+
+    def reused():
+        a = SymmetryAnalyzer(aux, symmetry_tol=1e-3)
+        a.get_crystal_system(), a.get_bravais_lattice(), a.get_point_group(), a.get_space_group_number()
+        a.set_system(at)
+        return a.get_space_group_number(), a.get_crystal_system(), a.get_bravais_lattice(), a.get_point_group()
+    ok, r2 = call(reused)
+    if not ok:
+        return out.fail("returns-normally", "re-used analyser: %r" % r2, key=key + ":exc-reused:" + exc_key(r2))
+    if r2[0] == sg and (r2[1], r2[2], r2[3]) != ref_bl:
+        out.fail("group-api-after-set_system", "analyser re-used through set_system() reports %r for a group-%d crystal, International Tables %r" % (r2[1:], sg, ref_bl), key=key + ":api-after-set_system")
     return out
 
 
